@@ -566,3 +566,33 @@ func (c *Conc) WriteWorld(dir string, w *World, layoutSeed int64) error {
 }
 
 var _ = sort.Strings
+
+// EnginePod is one pod of an engine history (C15).
+type EnginePod struct {
+	NS        string  `json:"ns"`
+	Name      string  `json:"name"`
+	Owner     string  `json:"owner"`
+	OwnerKind string  `json:"ownerKind"`
+	Labels    Labels  `json:"labels"`
+	Ports     []CPort `json:"ports"`
+}
+
+// PodObj renders an engine pod (with status, as an informer would deliver it).
+func (c *Conc) PodObj(p *EnginePod) map[string]interface{} {
+	wl := &Workload{NS: p.NS, Name: p.Name, Labels: p.Labels, Ports: p.Ports}
+	m := meta(p.Name, p.NS, p.Labels)
+	if p.Owner != "" {
+		m["ownerReferences"] = []interface{}{obj{"apiVersion": apiVersions[p.OwnerKind], "kind": p.OwnerKind,
+			"name": p.Owner, "uid": "00000000-0000-0000-0000-000000000000", "controller": true}}
+	}
+	return obj{"apiVersion": "v1", "kind": "Pod", "metadata": m, "spec": c.podSpec(wl, &Style{}),
+		"status": obj{"hostIP": "192.168.49.2", "podIPs": []interface{}{obj{"ip": "10.244.0.3"}}}}
+}
+
+func (c *Conc) NamespaceObj(name string, labels Labels) map[string]interface{} {
+	return obj{"apiVersion": "v1", "kind": "Namespace", "metadata": meta(name, "", labels)}
+}
+
+func (c *Conc) NetpolObj(np *Netpol) map[string]interface{} { return c.netpolDoc(0, np).Obj }
+func (c *Conc) ANPObj(a *ANP) map[string]interface{}        { return c.anpDoc(0, a).Obj }
+func (c *Conc) BANPObj(b *BANP) map[string]interface{}      { return c.banpDoc(b).Obj }
